@@ -88,6 +88,59 @@ func c04Inputs(g *Gen, n int) [][]byte {
 		add([]byte(`{"type":"Mention","href":"https://example.com/l","height":` + num + `,"width":` + num + `}`))
 		add([]byte(`{"type":"Question","id":"https://example.com/q","closed":` + num + `,"oneOf":["https://example.com/1"],"anyOf":["https://example.com/2"]}`))
 	}
+	// the leaf readers on texts that are almost what they expect: EVERY string of up to four symbols over the alphabet of
+	// an xsd:duration (sign, designators, a digit, the decimal point) in `duration`, and of an RFC 3339 instant cut short
+	// or with a symbol replaced in the four instant properties; top level and embedded
+	{
+		alpha := []string{"-", "P", "T", "1", ".", "S", "D", "H", "M", "Y"}
+		var texts []string
+		var rec func(prefix string, depth int)
+		rec = func(prefix string, depth int) {
+			if depth > 0 {
+				texts = append(texts, prefix)
+			}
+			if depth == 4 {
+				return
+			}
+			for _, a := range alpha {
+				rec(prefix+a, depth+1)
+			}
+		}
+		rec("", 0)
+		// batched, fourteen to a document (one per struct type would be slower than it is worth): every text is read by
+		// JSONGetDuration on its own embedded object
+		for i := 0; i < len(texts); i += 40 {
+			var sb strings.Builder
+			sb.WriteString(`{"type":"Video","id":"https://example.com/v","duration":"` + texts[i] + `","attachment":[`)
+			for j := i; j < i+40 && j < len(texts); j++ {
+				if j > i {
+					sb.WriteString(",")
+				}
+				sb.WriteString(fmt.Sprintf(`{"type":"Audio","id":"https://example.com/a/%d","duration":"%s"}`, j, texts[j]))
+			}
+			sb.WriteString("]}")
+			add([]byte(sb.String()))
+		}
+		inst := "2023-05-10T23:59:59+01:00"
+		var odd []string
+		for cut := 0; cut <= len(inst); cut++ {
+			odd = append(odd, inst[:cut], inst[cut:])
+		}
+		for pos := 0; pos < len(inst); pos++ {
+			for _, r := range []string{"-", ":", "T", "Z", "+", "9", ".", " ", ""} {
+				odd = append(odd, inst[:pos]+r+inst[pos+1:])
+			}
+		}
+		for i := 0; i < len(odd); i += 4 {
+			doc := `{"type":"Note","id":"https://example.com/t"`
+			for k, term := range []string{"published", "updated", "startTime", "endTime"} {
+				if i+k < len(odd) {
+					doc += `,"` + term + `":"` + odd[i+k] + `"`
+				}
+			}
+			add([]byte(doc + `,"tag":[{"type":"Tombstone","deleted":"` + odd[i] + `"}]}`))
+		}
+	}
 	// well-formed documents whose item-valued properties hold degenerate values (empty list, list of nothing, empty
 	// object, null, empty string): what comes back must still be inspectable property by property
 	for _, deg := range []string{"[]", "[null]", "[{}]", "{}", "null", "\"\"", "[[]]", "[\"\"]"} {
